@@ -359,11 +359,16 @@ def _levels(tier):
     core = [c for c in pf.CARRIER_NAMES if c in pf.CORE]
     qprogs = [('inst', [c]) for c in core + [m for m in multi if m not in core]]
     qprogs += [('cls', ['from_import']), ('func', ['import_mod'])]
+    # added after the first wave of seeded changes: package renames with a changed file inside the
+    # renamed package and with a sibling whose path has the package path as a string prefix
+    extra = [('inst', ['pkg_prefix_sibling']), ('inst', ['pkg_self_import']),
+             ('inst', ['assign', 'pkg_prefix_sibling']), ('inst', ['conditional_reimport'])]
     if tier == 'quick':
-        progs = qprogs
+        progs = qprogs + extra
     else:
         progs = list(pf.enumerate_programs(1, ['inst', 'cls', 'func']))
         progs += [('inst', [a, b]) for a in core for b in multi]
+        progs += [p for p in extra if p not in progs]
     for lay in lays:
         # GNU patch as second applier: on the quick program set in the LF and CRLF layouts (its
         # rejections are an open known finding with an explicit input list, kept to that set)
